@@ -31,6 +31,7 @@ func checkSliceRemoval(c *Ctx, rule, key string, fn *ssa.Function, L string, fou
 	var ps []string
 	var bad []string
 	shift, swap, trunc, app := 0, 0, 0, 0
+	var truncIns, moveIns []ssa.Instruction
 	notFound := ""
 	note := func(P string, i ssa.Instruction) {
 		ps = append(ps, P)
@@ -46,6 +47,7 @@ func checkSliceRemoval(c *Ctx, rule, key string, fn *ssa.Function, L string, fou
 			case a == L:
 				if reTrunc.MatchString(v) {
 					trunc++
+					truncIns = append(truncIns, i)
 				} else if m := reLast.FindStringSubmatch(v); m != nil && hasGuard(guardsOf(i), `^\(\(`+regexp.QuoteMeta(m[1])+`\+1\)==len\(`+q+`\)\)$`) {
 					note(m[1], i) // the element found is the last one
 				} else if strings.HasPrefix(v, "append("+L+"[:") {
@@ -73,6 +75,7 @@ func checkSliceRemoval(c *Ctx, rule, key string, fn *ssa.Function, L string, fou
 				m := reElem.FindStringSubmatch(a)
 				if v == lastElem {
 					swap++
+					moveIns = append(moveIns, i)
 					note(m[1], i)
 				} else {
 					bad = append(bad, c.P.Pos(core.PosOf(i))+": "+a+" = "+v)
@@ -87,6 +90,7 @@ func checkSliceRemoval(c *Ctx, rule, key string, fn *ssa.Function, L string, fou
 				m := reFrom.FindStringSubmatch(d)
 				if m != nil && s == L+"[("+m[1]+"+1):]" {
 					shift++
+					moveIns = append(moveIns, i)
 					note(m[1], i)
 				} else {
 					bad = append(bad, c.P.Pos(core.PosOf(i))+": copy("+d+", "+s+")")
@@ -113,6 +117,17 @@ func checkSliceRemoval(c *Ctx, rule, key string, fn *ssa.Function, L string, fou
 		form = "L[P] = L[len(L)-1] and L = L[:len(L)-1]"
 	default:
 		st, det = core.Violated, fmt.Sprintf("the writes to %s do not make up one removal (shift %d, swap %d, truncate %d, append %d)", L, shift, swap, trunc, app)
+	}
+	// the elements are moved while the slice still has its old length: the move is not reachable from the truncation
+	// (after it, len(L)-1 names another element and the last one is lost)
+	if st == core.Proved {
+		for _, t := range truncIns {
+			for _, m := range moveIns {
+				if reachesWithout(t, m, func(ssa.Instruction) bool { return false }) {
+					st, det = core.Violated, "the slice is truncated at "+c.P.Pos(core.PosOf(t))+" before the elements are moved at "+c.P.Pos(core.PosOf(m))+": len("+L+")-1 then names the element before the last, and the last one is lost"
+				}
+			}
+		}
 	}
 	if st == core.Proved && !same {
 		st, det = core.Violated, "the pieces of the removal use different indices: "+strings.Join(ps, ", ")
